@@ -201,8 +201,8 @@ class Driver:
                 except Exception as e:
                     sim.record("cmd", mid=mid, cmd=name, end="error", exc=type(e).__name__)
                     raise
-                ctx.cmd_results[mid] = r
-                sim.record("cmd", mid=mid, cmd=name, end="ok", value=summarize(r))
+                ev = sim.record("cmd", mid=mid, cmd=name, end="ok", value=summarize(r))
+                ctx.cmd_results.setdefault(mid, []).append((ev[0], r))
                 return r
 
             traced.__doc__ = fn.__doc__
